@@ -8,10 +8,21 @@
     specification (Dbc/CompileSpec.v), written over the parsed definitions without reference
     to the algorithm.
 
+    END TO END (second part of the file): [compile_text il id src text] (Dbc/CompileText.v) is
+    generate.Compile as a function of the TEXT: the parser model of C04 ([parse_bytes], Dbc/Parser.v)
+    followed by [compile].  The theorems C05_text_* chain the round-trip theorem of C04
+    (C04_parse_print_partial) with the theorems above, so that the reference is the source text -
+    the digits and strings the user wrote ([print cr ds] / [print_file cr its gend], Dbc/Printer.v) -
+    and not the definitions some parser produced.  [elaborate cr ds : list def] is the denotation of the
+    source (one definition per source definition, numbers = the values of the literals, positions
+    = where the definition starts); it has the type [compile] consumes, no conversion is involved.
+
     Only property theorems, each closed by [exact], each followed by [Print Assumptions]. *)
+From Coq Require Import String.
 From Coq Require Import ZArith List Bool Permutation Sorted.
 From CanVerif Require Import Base.Sort Dbc.Ast Descriptor.Types Dbc.Compile Dbc.CompileSpec
   Dbc.CompileLemmas Dbc.CompileProofs.
+From CanVerif Require Import Dbc.Scanner Dbc.Parser Dbc.Printer Dbc.RoundTrip Dbc.Witness Dbc.CompileText Dbc.CompileTextProofs.
 Import ListNotations.
 Open Scope Z_scope.
 
@@ -152,3 +163,69 @@ Proof.
   match goal with |- perm42 (?d0 :: ?d1 :: ?d2 :: ?d3 :: ?d4 :: ?d5 :: [?d6]) _ =>
     exact (p42_swap_metadata [d0; d1] d2 [d3; d4; d5] d6 [] eq_refl eq_refl) end.
 Qed.
+
+(** ------------------------------------------------------------------ END TO END: the text is the reference
+
+    For every source file [ds] that is well-formed in the sense of C04's round-trip theorem
+    ([wf_file], Dbc/Printer.v: every definition kind, one line per definition / signal, single
+    spaces, decimal number literals with optional sign, fraction and exponent, strings over printable
+    ASCII with escapes; [cr_ok cr]: every line ends with the same run [cr] of spaces / carriage
+    returns before LF) and whose denotation is in the compile class (DESIGN.md 4.2), compiling the
+    printed TEXT succeeds and returns exactly the sorted denoted database of the source and exactly
+    the specified warnings.  [il], [id]: unicode.IsLetter / IsDigit on runes >= 128 (arbitrary). *)
+Theorem C05_text_compile_eq : forall (il id : Z -> bool) (cr source : bytes) (ds : list sdef),
+  cr_ok cr -> wf_file ds -> in_class (elaborate cr ds) = true ->
+  compile_text il id source (print cr ds)
+  = Some (sort_db (denoted_db source (elaborate cr ds)), spec_warnings (elaborate cr ds)).
+Proof. exact compile_text_eq. Qed.
+Print Assumptions C05_text_compile_eq.
+
+(** the same for every layout the round-trip theorem covers: blank lines (LF or CRLF, with spaces)
+    before every definition and at the end of the file ([wf_lfile]; items = (blank lines, definition)) *)
+Theorem C05_text_compile_file_eq : forall (il id : Z -> bool) (cr source : bytes) (its : list item) (gend : bytes),
+  wf_lfile cr its gend -> in_class (elaborate_file cr its) = true ->
+  compile_text il id source (print_file cr its gend)
+  = Some (sort_db (denoted_db source (elaborate_file cr its)), spec_warnings (elaborate_file cr its)).
+Proof. exact compile_text_file_eq. Qed.
+Print Assumptions C05_text_compile_file_eq.
+
+(** ... in the words of the property: the database compiled from the text is denoted by the source
+    (every node / message / signal field as written, metadata from the resolving line), canonically
+    ordered, carries the source file name, and the warnings are exactly the specified ones *)
+Theorem C05_text_compile_denotes : forall (il id : Z -> bool) (cr source : bytes) (ds : list sdef),
+  cr_ok cr -> wf_file ds -> in_class (elaborate cr ds) = true ->
+  exists db ws, compile_text il id source (print cr ds) = Some (db, ws) /\
+    denotes (elaborate cr ds) db /\ canonical db /\ db_source_file db = source /\
+    ws = spec_warnings (elaborate cr ds).
+Proof. exact compile_text_denotes. Qed.
+Print Assumptions C05_text_compile_denotes.
+
+(** non-vacuity of the end-to-end hypotheses, on a concrete file ([ex_src] in Dbc/CompileTextProofs.v;
+    [ex_text] is its printed text, 15 lines):
+      VERSION "1.0" / BU_: N / BO_ 2147483748 M : 8 N /
+      SG_ B m2 : 39 | 8 @ 0 - ( 1 , 0 ) [ 0 | 0 ] "" Vector__XXX , N /
+      SG_ A : 0 | 32 @ 1 + ( 0.1 , -40 ) [ 0 | 6E+3 ] "km/h" N /
+      BA_DEF_ BO_ "GenMsgCycleTime" INT 0 0 ; / BA_DEF_ SG_ "GenSigStartValue" INT ; /
+      BA_DEF_ BO_ "GenMsgSendType" ENUM "None" , "Cyclic" ; /
+      BA_ "GenSigStartValue" SG_ 100 A 16777217 ; / BA_ "GenMsgCycleTime" BO_ 100 20000001 ; /
+      BA_ "GenMsgSendType" BO_ 2147483748 1 ; / SIG_VALTYPE_ 100 A : 1 ; / CM_ SG_ 100 A "speed" ; /
+      VAL_ 2147483748 B 2 "t" -1 "o" ; / CM_ BU_ G "x" ;
+    it is well-formed, in the class, and its text compiles to: one warning (the comment for the
+    undeclared node G, line 15), version 1.0, node N, the extended message 100 with send type Cyclic
+    (enum index 1), cycle time 20000001 ms in ns, signal A (start 0, float32, start value 16777217 =
+    2^24 + 1, factor 0.1 and offset -40 as binary64 bit patterns, comment, unit) before signal B
+    (start 39; value descriptions sorted by value).  Evaluated by vm_compute through the theorem. *)
+Local Open Scope string_scope.
+Example C05_text_nonvacuous : forall il id,
+  wf_file ex_src /\ in_class (elaborate [] ex_src) = true /\ print [] ex_src = ex_text /\
+  exists db, compile_text il id [] ex_text = Some (db, [(WNoNode, at_ 15 1 502)]) /\
+    db = sort_db (denoted_db [] (elaborate [] ex_src)) /\
+    db_version db = txt "1.0" /\ map node_name (db_nodes db) = [txt "N"] /\
+    map (fun m => (msg_name m, msg_id m, msg_extended m, msg_length m, msg_send_type m, msg_cycle_time m, msg_sender m,
+           map (fun s => (s_name s, s_start s, s_length s, s_float s, s_default s, s_scale s, s_offset s,
+                          s_description s, s_unit s, map (fun v => (vdesc_value v, vdesc_text v)) (s_value_descriptions s)))
+               (msg_signals m))) (db_messages db)
+    = [(txt "M", 100, true, 8, SendCyclic, 20000001000000, txt "N",
+        [(txt "A", 0, 32, true, 16777217, 4591870180066957722, 13854198353698488320, txt "speed", txt "km/h", []);
+         (txt "B", 39, 8, false, 0, 4607182418800017408, 0, [], [], [(-1, txt "o"); (2, txt "t")])])].
+Proof. exact ex_src_compiles. Qed.
